@@ -515,9 +515,11 @@ def compare_run(case, run, log, max_differences=4):
                    "expected log %r; observed log %r" % (group, run["api"], run["mode"], run["limit"], index, e, o,
                                                         expected, observed))
         found.append((signature, message))
-        # look behind the difference: repair the observation and compare again
-        if after_second_close:
-            break  # whatever a second close() adds is one finding
+        # look behind the difference: repair the observation and compare again - but only where what follows does
+        # not depend on the difference (a reset / verdict / cleanup call too few or too many); a difference among
+        # the row calls changes everything after it, and whatever a second close() adds is one finding
+        if after_second_close or name not in _SPECIAL:
+            break
         if direction == "missing":
             if name == "reset" and stateful:
                 break  # a built-in check kept its state: everything after it is a consequence, not a new finding
